@@ -1,3 +1,4 @@
+#![allow(dead_code)]
 //! cvh - conformance harness for caches-rs.  It executes specification behaviours and random
 //! histories on the real library (built from /repo's working tree with the `verif-hooks`
 //! feature) and logs what happened; all judging is done by TLC against the TLA+ specification.
@@ -56,7 +57,7 @@ fn exec_cmd<K: track::KeyT>(a: &Args) -> exec::Stats {
             + cfg.get("a").and_then(|v| v.as_u64()).unwrap_or(1) + cfg.get("b").and_then(|v| v.as_u64()).unwrap_or(1)),
     };
     let env = sut::Env { hasher: a.get("hasher").unwrap_or("std").to_string(), kh_table: Rc::new(table), default_ctor: a.has("default-ctor") };
-    let fl = exec::Flags { audit: a.has("audit"), tok: a.has("tok"), ro: !a.has("no-ro"), drop_ev: a.has("drop"), clone_ev: a.has("clone") };
+    let fl = exec::Flags { audit: a.has("audit"), tok: a.has("tok"), ro: !a.has("no-ro"), drop_ev: a.has("drop"), clone_ev: a.has("clone"), shuffle: a.num("shuffle", 0) };
     let random = a.get("random").map(|s| {
         let p: Vec<u64> = s.split(',').map(|x| x.parse().unwrap()).collect();
         (p[0] as usize, p[1] as usize, p[2])
